@@ -134,6 +134,22 @@ class _ExprStr(str):
     """Marker subclass used to flag unresolved expression fragments."""
 
 
+def _is_c_string_literal(node: ast.AST) -> bool:
+    """``True`` if ``node`` is emitted as a C string literal, or as a choice between two.
+
+    Such an expression has the C++ type ``const char*``: it is no ``String`` object, so it
+    has no methods and two of them cannot be joined with ``+``.
+    """
+
+    if isinstance(node, ast.Constant):
+        return isinstance(node.value, str)
+    if isinstance(node, ast.JoinedStr):
+        return not any(isinstance(v, ast.FormattedValue) for v in node.values)
+    if isinstance(node, ast.IfExp):
+        return _is_c_string_literal(node.body) and _is_c_string_literal(node.orelse)
+    return False
+
+
 _SAFE_CASTS = {
     "int": int,
     "float": float,
@@ -583,7 +599,15 @@ def _to_c_expr(
             )
 
         if isinstance(n, ast.BinOp) and type(n.op) in _BIN:
-            return _emit_binop(type(n.op), emit(n.left), emit(n.right), helper_set)
+            left = emit(n.left)
+            if (
+                isinstance(n.op, ast.Add)
+                and _is_c_string_literal(n.left)
+                and _is_c_string_literal(n.right)
+            ):
+                # "a" + "b" would add two pointers; concatenation needs a String on one side.
+                left = f"String({left})"
+            return _emit_binop(type(n.op), left, emit(n.right), helper_set)
 
         if isinstance(n, ast.UnaryOp) and type(n.op) in _UN:
             op_token = _UN[type(n.op)]
@@ -874,7 +898,7 @@ def _to_c_expr(
                 arg_expr = emit(arg)
                 arg_type = _infer_arg_type(arg)
                 if arg_type == "String":
-                    if arg_expr.startswith('"'):
+                    if _is_c_string_literal(arg):
                         base = f"String({arg_expr})"
                         return f"{base}.to{fname.capitalize()}()"
                     return f"({arg_expr}).to{fname.capitalize()}()"
